@@ -1129,7 +1129,10 @@ def zoo_probes(cfg):
             s0 = F(repr(float(start)))
             out.append(make_probe(name=PROBE_NAMES[3], start=float(s0 + 2 * dt)))
             out.append(make_probe(name=PROBE_NAMES[4], stop=float(s0 + dur - 2 * dt)))
-            if unit == 'year' and (s0 + 2 * dt).denominator == 1:    # (a NUMBER as the start of a week-unit module in a year sim is refused: its stop is the sim's last DATE)
+            # (a NUMBER as the start of a week-unit module in a year sim is refused: its stop is the sim's last DATE; so the probe
+            #  gets the date of the year s0 + 2 dt.  Not when the sim's start is the number 0: that is not the calendar year 0 —
+            #  the code reads it as the default start year — so a date `0002-01-01` would not be "two steps late" but 1998 years early)
+            if unit == 'year' and (s0 + 2 * dt).denominator == 1 and s0 >= 1:
                 out.append(make_probe(name=PROBE_NAMES[5], start=f'{int(s0 + 2 * dt):04d}-01-01', unit='week', dt=4.0))
     return out
 
@@ -1210,7 +1213,15 @@ def run_zoo(name, cfg):
             pre = {id(m): dict(unit=m.t.unit, start=m.t.start, stop=m.t.stop, dt=m.t.dt) for m in given_modules(sim)}
             sim.init()
             return sim, pre
-        sim, pre = with_timeout(TIME_LIMIT, build)
+        try:
+            sim, pre = with_timeout(TIME_LIMIT, build)
+        except Exception as e:
+            if not probes: raise
+            # refused WITH the probes (e.g. a probe window that lies outside a sim whose start the code moved): the entry
+            # itself must still be judged, so run it as it is
+            out['probes_dropped'] = f'{type(e).__name__}: {str(e)[:200]}'
+            probes = []
+            sim, pre = with_timeout(TIME_LIMIT, build)
     except (Exception, Hang) as e:
         out.update(err=err_kind(e), exc=f'{type(e).__name__}: {str(e)[:200]}')
         _ZOO_RUNS[name] = out
@@ -1275,8 +1286,8 @@ def search_zoo(ctx):
             if info.get('rejected') and not fails: continue
         ctx.count('zoo_runs')
         z = _ZOO_RUNS[name]
-        if z.get('probe_error'):
-            ctx.count('zoo_exceptions'); ctx.notes['last_zoo_exception'] = f"{name}: probes not made: {z['probe_error']}"
+        if z.get('probe_error') or z.get('probes_dropped'):
+            ctx.count('zoo_exceptions'); ctx.notes['last_zoo_exception'] = f"{name}: run without probes: {z.get('probe_error') or z.get('probes_dropped')}"
         ctx.count('zoo_timelines', 1 + len(z.get('init', {}).get('mods', {})))
         for f in fails:
             ctx.fail(f['signature'], f'[zoo:{name}] ' + f['what'], dict(kind='zoo', name=name, cfg=cfg))
